@@ -33,6 +33,7 @@ def cfg_fields(obj):
             for d, s in v.items():
                 out[f"{k}[{d}]"] = s
         if k.endswith("_data") and isinstance(v, T):
+            out[k + ".dtype"] = {"bool": 0, "int": 1, "float": 2}.get(v.dtype, 3)  # a resize must not change what the storage holds
             out[k + ".tlen"] = v.tlen
             if v.eshape is not None:
                 for i, it in enumerate(v.eshape.items):
@@ -232,6 +233,7 @@ ASSUMPTIONS = [
 ]
 
 MUTANTS = [
+    dict(file="inferno/core/infrastructure.py", func="ShapedTensor.__make_compatible", old="            return torch.cat((zeros(tensor, shape=shape), tensor), dim)", new="            return torch.cat((torch.zeros(shape, device=tensor.device), tensor), dim)", contracts=["DeltaCurrent[setters_vs_constructor]"], name="seed C14g: growing a history pads with float32 zeros (boolean spike histories turn into floats)"),
     dict(file=RT, func="CumulativeTraceReducer.dt@setter", old="        FoldReducer.dt.fset(self, value)\n        self.decay = exp(-self.dt / self.time_constant)", new="        self.decay = exp(-self.dt / self.time_constant)\n        FoldReducer.dt.fset(self, value)", contracts=["CumulativeTraceReducer[setters_vs_constructor]"], name="seed C14e: cached decay computed before the new step time is stored"),
     dict(file=NB, func="InfernoNeuron.batchsz@setter", old="        BatchShapeMixin.batchsz.fset(self, value)\n        self.clear()", new="        self.clear()\n        BatchShapeMixin.batchsz.fset(self, value)", contracts=["LIF[setters_vs_constructor]"], name="seed C11d: neuron state cleared BEFORE the batch resize (new samples start at 0 V instead of rest)"),
     dict(file=NB, func="Connection.synapse@setter", old="self.synapse_ = value", new="self.synapses = value", contracts=["Connection[setters_delegate_to_the_synapse]"], name="D13 regression"),
